@@ -44,7 +44,24 @@ type histCase struct {
 	Fault int `json:"fault"`
 }
 
-var mapFree = []string{"Simple", "Empty", "BigStrings", "Widths", "Registered", "Skips", "Embeds", "ReuseTwice", "SubOdd", "WideRecord", "WideRecord", "EmbedMid", "RowTime", "RowNullInt", "RowNullString"}
+var mapFree = []string{"AllFixed", "Simple", "Empty", "BigStrings", "Widths", "Registered", "Skips", "Embeds", "ReuseTwice", "SubOdd", "WideRecord", "WideRecord", "EmbedMid", "RowTime", "RowNullInt", "RowNullString"}
+
+var genNamesCache = map[bool][]string{}
+
+// genNamesFor lists the generated named types (all of them, or those without maps).
+func genNamesFor(mapFreeOnly bool) []string {
+	if v, ok := genNamesCache[mapFreeOnly]; ok {
+		return v
+	}
+	var out []string
+	for _, n := range cat.GenNames() {
+		if !mapFreeOnly || !cat.Get(n).Spec.Contains(func(t spec.TypeSpec) bool { return t.K == "map" }) {
+			out = append(out, n)
+		}
+	}
+	genNamesCache[mapFreeOnly] = out
+	return out
+}
 
 func drawHistCase(t *rapid.T, mapFreeOnly bool) histCase {
 	var c histCase
@@ -58,12 +75,23 @@ func drawHistCase(t *rapid.T, mapFreeOnly bool) histCase {
 		c.Cat = "Empty"
 	case 1:
 		c.Cat = "BigStrings"
+	case 2:
+		// a generated named type (any shape; for the fault-injection histories one without maps)
+		gn := genNamesFor(mapFreeOnly)
+		if len(gn) == 0 {
+			c.Cat = rapid.SampledFrom(names).Draw(t, "cat")
+		} else {
+			c.Cat = gn[gen.Uniform(t, "genCat", len(gn))]
+		}
 	default:
 		c.Cat = rapid.SampledFrom(names).Draw(t, "cat")
 	}
 	ts := cat.Get(c.Cat).Spec
 	c.Compression = drawCompression(t)
 	c.BlockSize = []int{0, 1, 7, 64, 300, 1000, 1000000, 250, 4070, 4090}[gen.Uniform(t, "blocksize", 10)]
+	if gen.Uniform(t, "anyBlockSize", 3) == 0 {
+		c.BlockSize = gen.UniformRange(t, "blocksizeAny", 2, 400) // no particular relation to the record size
+	}
 	n := gen.UniformRange(t, "nops", 1, 30)
 	if thorough() {
 		n = gen.UniformRange(t, "nops", 1, 60)
